@@ -198,11 +198,14 @@ package allocator
 //@ type DistributedAllocator
 //@   owns mu:
 
+// store keys: "/allocation/<pool>/<subscriber>" -- the subscriber id is everything after the prefix
 //@ func (da *DistributedAllocator) allocationKey
 //@   modifies nothing
+//@   ensures result == strcat(strcat(strcat("/allocation/", da.poolID), "/"), subscriberID)
 
 //@ func (da *DistributedAllocator) keyPrefix
 //@   modifies nothing
+//@   ensures result == strcat(strcat("/allocation/", da.poolID), "/")
 
 //@ func (da *DistributedAllocator) saveAllocation
 //@   requires alloc != nil && da.store != nil
@@ -275,6 +278,10 @@ package allocator
 //@ func (da *DistributedAllocator) handleRemoteChange
 //@   mode seq
 //@   requires sessionMode(da)
+// "a change announced by another node is applied": an announced delete of the key of subscriber x
+// (the key allocationKey(x) builds, whatever characters x contains) removes exactly x's allocation
+//@   ensures deleted ==> forall x string :: key == strcat(strcat(strcat("/allocation/", da.poolID), "/"), x) ==> x !in da.allocator.allocated
+//@   ensures deleted ==> forall x string, s string :: key == strcat(strcat(strcat("/allocation/", da.poolID), "/"), x) && s != x ==> (s in da.allocator.allocated) == old(s in da.allocator.allocated)
 //@   modifies da.allocator.bitmap, da.allocator.allocatedCount, da.allocator.nextFree, da.allocator.allocated, da.allocator.indexToSubscriber
 //@   ensures da.allocator.nonnil && da.allocator.distinct && da.allocator.total && da.allocator.fwd && da.allocator.rev && da.allocator.bits
 //@   ensures da.allocator.cnt
